@@ -67,6 +67,7 @@ type RunResult struct {
 	StubCalls    map[string]int    `json:"stub_calls,omitempty"`
 	KnownSeen    []string          `json:"known_seen,omitempty"`
 	Cuts         map[string]int    `json:"cuts,omitempty"`
+	Fallbacks    int               `json:"fallback_queries,omitempty"`
 	CrossChecked int               `json:"cross_checked,omitempty"`
 	CrossDisagree []string         `json:"cross_disagree,omitempty"`
 	Truncated    bool              `json:"truncated,omitempty"`
@@ -417,6 +418,8 @@ func Explore(prog *Program, pool *Pool, cfg RunConfig) (*RunResult, error) {
 					res.Cuts[k] += n
 				}
 				res.AssertQ += p.assertQueries
+				res.Fallbacks += p.fallbackQueries
+				res.SolverTime += p.fallbackTime.Seconds()
 				res.Queries += p.oneShotQueries
 				res.SolverTime += p.oneShotTime.Seconds()
 				res.CrossChecked += p.crossChecked
